@@ -1,0 +1,23 @@
+//! Verification hooks (guard: `--cfg dust_dds_verif`).
+//!
+//! This module only re-exports items that already exist; it adds no behaviour.
+#![allow(missing_docs)]
+
+pub use crate::dcps::{
+    channels, data_representation_builtin_endpoints, dcps_domain_participant, dcps_mail,
+    listeners, status_condition, status_mask, xtypes_glue,
+};
+
+pub mod xtypes_serializer {
+    pub use crate::xtypes::serializer::{
+        serialize_cdr1_be, serialize_cdr1_le, serialize_cdr2_be, serialize_cdr2_le,
+        serialize_final_without_header, serialize_without_header_cdr1_le,
+        serialize_without_header_cdr2_le,
+    };
+}
+
+pub mod xtypes_deserializer {
+    pub use crate::xtypes::deserializer::{
+        deserialize_top_level_type, deserialize_top_level_type_from_representation_identifier,
+    };
+}
